@@ -152,6 +152,8 @@ def p_C01(ctx):
                   "new": {"C20"}, "init": {"C20"}, "from_vec": {"C20"}}.get(op, set())
         return props, {"family": "hooktrace", "op": op, "kind": "trace_rejected"}
     ctx.repo_tests_trace(attr_hook_event)
+    # unbounded dimensions: the shape invariant of the dimension-only projection (Shape.tla) is inductive (Apalache)
+    ctx.apalache_inductive("Shape", "Init", "IndInit", "Inv")
     # code -> spec: long random histories on larger shapes, recorded from the real crate and validated by TLC
     nh, steps = (120, 60) if ctx.quick else (1500, 120)
     ctx.drive_and_validate("drive-hist", ["hist", ctx.seed, nh, steps, 6, "{out}", "elem"], "TooDeeTrace", attr_hist_event,
